@@ -58,6 +58,33 @@ def huge_gap_case(rng):
     return ";".join(ops), dict(dist=["huge_gap"], defined={}, threaded=False, huge_gap=True, no_model=True)
 
 
+def wide_window_case(rng):
+    """statistics windows around the thresholds at which the reader switches between reading samples and reading summaries, with
+    a LARGE first-level decimation: the sample path then stages up to 25 * sample_decimate_factor values (or one increment of them)
+    in buffers sized from the definition or from the request - every such buffer must hold what is put into it (ASan)"""
+    dt = rng.choice(["f32", "u8", "i16", "f64", "u4"])
+    sdf = rng.choice([2624, 4096, 8192, 3000 // 32 * 32 + 32 * rng.randrange(0, 40)])
+    spd = sdf * rng.choice([1, 2, 4])
+    sumdf = rng.choice([2, 4, 10])
+    eps = sumdf * rng.choice([1, 4, 16])
+    total = rng.choice([66000, 70000, 140000, 210000])
+    ops = ["wopen", "src 1 e e e e e", proglib.sigdef_op(3, 1, dt, spd=spd, sdf=sdf, eps=eps, sumdf=sumdf, adf=10, udf=10)]
+    at = 0
+    while at < total:
+        n = min(40000, total - at)
+        ops.append("fsr 3 %d %d %d %d" % (at, n, rng.choice([0, 1, 2]), rng.randrange(1, 999)))
+        at += n
+    ops += ["wclose", "ropen", "len 3"]
+    for _ in range(rng.randrange(4, 10)):
+        ln = rng.choice([1, 1, 1, 2, 3, 24, 25, 26])
+        incr = rng.choice([65535, 65536, 65537, 65540, sdf - 1, sdf, sdf + 1, 25 * sdf // ln - 1, 25 * sdf // ln, 25 * sdf // ln + 1, total // ln, total // ln - 1])
+        incr = max(1, incr)
+        start = rng.choice([0, 0, 1, sdf - 1, max(0, total - incr * ln), max(0, total - incr * ln - 1)])
+        ops.append("st 3 %d %d %d" % (start, incr, ln))
+    ops += ["rd 3 %d %d" % (rng.choice([0, total - 100]), 100), "rclose"]
+    return ";".join(ops), dict(dist=["wide_window"], defined={3: (dt, False)}, threaded=False)
+
+
 def gen_case(rng, tier):
     r0 = rng.random()
     if r0 < 0.03:
@@ -66,6 +93,8 @@ def gen_case(rng, tier):
         return extreme_id_case(rng)
     if r0 < 0.065:
         return huge_gap_case(rng)
+    if r0 < 0.09:
+        return wide_window_case(rng)
     threaded = rng.random() < 0.25
     ops = ["topen" if threaded else "wopen"]
     defined = {}
